@@ -69,6 +69,9 @@ Ltac resolve := repeat (first [step; cbv beta iota | let_step | layer]).
 (** the three forms of a case *)
 Ltac close_case := resolve; itv.
 Ltac none_case := resolve; reflexivity.
-Ltac real_case := itv.
+Ltac real_case := resolve; itv.
 Ltac ipc_laps_case := unfold_leaves; split; interval with (i_prec 90).
 Ltac ipc_close_case := close_case.
+(** bending: [acos] is unfolded to its definition through [atan], which Coq-Interval evaluates *)
+Ltac bend_case :=
+  cbv beta iota delta [bend_derivative]; let_step; unfold acos; repeat (step; cbv beta iota); resolve; itv.
